@@ -122,6 +122,20 @@ class SimProcess:
             chk.out = None
         sim.child_stdout, sim.child_stderr = out.getvalue(), err.getvalue()
         sim.child_prints = chk.prints_done
+        if sim.overlap_request is not None:
+            # ANOTHER browser tab's complete request (its own session, program, child and record) is served while this
+            # request is still blocked in join(): requests overlap in a threaded server
+            other, sim.overlap_request = sim.overlap_request, None
+            saved_form = sim.app.request.form
+            saved = (sim.child_stdout, sim.child_stderr, sim.child_prints, sim.child_steps, sim.user_kill_at, sim.speed)
+            try:
+                sess_b = sim.app.index()["session"]
+                sim.app.request.form = dict(flags="", code=other, inputs="", header="", footer="", session=sess_b)
+                sim.user_kill_at, sim.speed = None, 10 ** 9
+                sim.overlap_response = sim.app.execute()
+            finally:
+                sim.app.request.form = saved_form
+                (sim.child_stdout, sim.child_stderr, sim.child_prints, sim.child_steps, sim.user_kill_at, sim.speed) = saved
         if sim.page_loads_during_run:
             # other browser tabs load the page while this request is blocked in join()
             n_, sim.page_loads_during_run = sim.page_loads_during_run, 0
@@ -161,13 +175,16 @@ class SimMP:
     def reset(self, speed=1000, user_kill_at=None):
         self.speed = speed
         self.user_kill_at = user_kill_at
-        self.procs, self.records = [], []
+        self.procs = []
+        self.records = list(getattr(self, "import_time_records", []))
         self.kills = 0
         self.child_steps = 0
         self.child_stdout = self.child_stderr = ""
         self.child_prints = 0
         self.user_kill_delivered = False
         self.page_loads_during_run = 0
+        self.overlap_request = None
+        self.overlap_response = None
         self.app = None
         self.session = None
 
@@ -192,14 +209,24 @@ def load(chk):
     scratch = tempfile.mkdtemp(prefix="verif-flask-")
     old_cwd = os.getcwd()
     os.chdir(scratch)
+    # the simulated multiprocessing is in place BEFORE flask_app is imported, so that anything the module creates at
+    # import time (a module-level Manager, a shared record) is simulated too and no real process is ever started
+    simmp = SimMP(chk)
+    real_mp = sys.modules.get("multiprocessing")
+    sys.modules["multiprocessing"] = simmp
     try:
         spec = importlib.util.spec_from_file_location("verif_flask_app", os.path.join(REPO_DIR, "flask_app.py"))
         fa = importlib.util.module_from_spec(spec)
         spec.loader.exec_module(fa)
     finally:
         os.chdir(old_cwd)
+        if real_mp is not None:
+            sys.modules["multiprocessing"] = real_mp
+        else:
+            sys.modules.pop("multiprocessing", None)
+    simmp.import_time_records = list(simmp.records)
     fa.__scratch__ = scratch
-    fa.multiprocessing = SimMP(chk)
+    fa.multiprocessing = simmp
     # the child is the same execute_vyxal object the direct layer drives (with the seams installed)
     fa.execute_vyxal = chk.main.execute_vyxal
     import atexit
@@ -233,13 +260,14 @@ def run_case(chk, fa, case):
 
     tab = {"session": None}
 
-    def request(speed, user_kill_at, tflag="", same_tab=False, page_loads=0, late_kill_first=False):
+    def request(speed, user_kill_at, tflag="", same_tab=False, page_loads=0, late_kill_first=False, overlap=None):
         world.World(inputs=[])  # reset seams
         world.URLLIB.reset(mode="ok", payload=b"[1,2]")
         canary.reset()
         sim.reset(speed=speed, user_kill_at=user_kill_at)
         sim.app = fa
         sim.page_loads_during_run = page_loads
+        sim.overlap_request = overlap
         server_out = world.RecordingStdout()
         old_cwd, old_out = os.getcwd(), sys.stdout
         os.chdir(fa.__scratch__)
@@ -259,7 +287,8 @@ def run_case(chk, fa, case):
         finally:
             sys.stdout = old_out
             os.chdir(old_cwd)
-        proc = sim.procs[-1] if sim.procs else None
+        # the process of THIS request is the first one created during it (an overlapping request creates another)
+        proc = sim.procs[0] if sim.procs else None
         return resp, proc
 
     def cleanup():
@@ -270,11 +299,17 @@ def run_case(chk, fa, case):
     cov.add("scenario:" + scenario)
     # fault-free request: a fast child finishes well inside the timeout
     try:
-        resp0, p0 = request(10 ** 9, None, page_loads=(case.get("page_loads", 0) if scenario == "page_loads" else 0))
+        resp0, p0 = request(10 ** 9, None, page_loads=(case.get("page_loads", 0) if scenario == "page_loads" else 0),
+                            overlap=("`other-tab` ," if scenario == "overlap" else None))
     except Exception as e:
         cleanup()
         return fail("handler-raised", f"flask_app.execute raised {type(e).__name__}: {e}"
                                       + (f" ({case.get('page_loads')} page loads arrived during the run)" if scenario == "page_loads" else ""))
+    if scenario == "overlap" and sim.overlap_response is not None:
+        if sim.overlap_response.get("stdout") != "other-tab\n":
+            cleanup()
+            return fail("response-differs", f"a request served while another was running returned stdout "
+                                            f"{sim.overlap_response.get('stdout', '')[:60]!r} instead of its own output")
     if scenario == "two_runs" and p0 is not None and p0.outcome == "ok":
         # the same tab runs the same program again: same answer
         try:
